@@ -3,6 +3,7 @@ import ast
 
 from sa.loader import AnalysisError, norm, walk_local
 from sa.cfg import cfg_of
+from sa.pathsum import summaries
 from sa.spec import logical as spec
 from .common import analysis, names_in
 from .c02 import fixed_gate
@@ -60,8 +61,9 @@ def run(ctx):
     lrm = p.module("_logical_readers_py")
     for name, want in (("read_timestamp_millis", "epoch"), ("read_timestamp_micros", "epoch"), ("read_local_timestamp_millis", "epoch_naive"), ("read_local_timestamp_micros", "epoch_naive")):
         f = lrm.functions[name]
-        rets = [norm(n.value) for n in walk_local(f.node) if isinstance(n, ast.Return)]
-        unit = "data * 1000" if "millis" in name else "data"
+        d = f.pos_params[0]
+        rets = sorted({s.text for s in summaries(cfg_of(f)) if s.kind == "return"})
+        unit = f"{d} * 1000" if "millis" in name else d
         ctx.check("C16.R3", f"{name}: {want} + timedelta(microseconds={unit})", rets == [f"{want} + timedelta(microseconds={unit})"], f.where(), f"{name}: {rets}", "timestamp read with the wrong epoch (aware vs naive) or unit")
     ev = {"epoch": "datetime(1970, 1, 1, tzinfo=timezone.utc)", "epoch_naive": "datetime(1970, 1, 1)"}
     for nm, want in ev.items():
@@ -70,13 +72,17 @@ def run(ctx):
     lwm = p.module("_logical_writers_py")
     for name in ("prepare_local_timestamp_millis", "prepare_local_timestamp_micros"):
         f = lwm.functions[name]
-        ok = any(isinstance(n, ast.Assign) and norm(n) == "delta = data.replace(tzinfo=datetime.timezone.utc) - epoch" for n in walk_local(f.node))
-        ctx.check("C16.R3", f"{name}: wall-clock fields taken as if UTC (replace(tzinfo=utc) - epoch)", ok, f.where(), f"{name}: delta computation", "local timestamps must not depend on the process time zone")
+        d = f.pos_params[0]
+        conv = [s for s in summaries(cfg_of(f)) if s.kind == "return" and s.text != d]
+        want = f"({d}.replace(tzinfo=datetime.timezone.utc) - epoch)"
+        ok = bool(conv) and all(want in s.text and "epoch_naive" not in s.text and "mktime" not in s.text and "timestamp()" not in s.text for s in conv)
+        ctx.check("C16.R3", f"{name}: wall-clock fields taken as if UTC (replace(tzinfo=utc) - epoch)", ok, f.where(), f"{name}: returns {[s.text[:90] for s in conv]}", "local timestamps must not depend on the process time zone")
     for name in ("prepare_timestamp_millis", "prepare_timestamp_micros"):
         f = lwm.functions[name]
-        ifs = [n for n in walk_local(f.node) if isinstance(n, ast.If) and norm(n.test) == "data.tzinfo is not None"]
-        ok = len(ifs) == 1 and any(isinstance(s, ast.Assign) and norm(s) == "delta = data - epoch" for s in ifs[0].body)
-        ctx.check("C16.R3", f"{name}: aware datetimes are measured from the aware epoch", ok, f.where(), f"{name}: aware branch", "aware datetimes with any offset must map to units from the UTC epoch")
+        d = f.pos_params[0]
+        aware = [s for s in summaries(cfg_of(f)) if s.kind == "return" and f"{d}.tzinfo is not None" in s.facts]
+        ok = bool(aware) and all(f"({d} - epoch)" in s.text and "epoch_naive" not in s.text and "mktime" not in s.text for s in aware)
+        ctx.check("C16.R3", f"{name}: aware datetimes are measured from the aware epoch", ok, f.where(), f"{name}: aware paths return {[s.text[:90] for s in aware]}", "aware datetimes with any offset must map to units from the UTC epoch")
 
     ctx.rule("C16.R4", "decimal preparers: digit tuple straight from the datum; a raise guarded by digits vs precision and one by exponent vs scale", floor=6)
     for name in ("prepare_bytes_decimal", "prepare_fixed_decimal"):
